@@ -508,11 +508,15 @@ impl GroupConfig {
     pub fn input_paths(&self) -> Box<dyn Iterator<Item = Path> + Send> {
         let base_dir = Arc::new(self.base_dir.clone());
         if self.stdin {
-            Box::new(
-                BufReader::new(stdin())
-                    .lines()
-                    .map(move |s| base_dir.resolve(Path::from(s.unwrap().as_str()))),
-            )
+            // File names are arbitrary bytes, not necessarily valid UTF-8:
+            // split the input into lines without decoding it
+            Box::new(BufReader::new(stdin()).split(b'\n').map(move |line| {
+                let mut line = line.unwrap();
+                if line.ends_with(b"\r") {
+                    line.pop();
+                }
+                base_dir.resolve(Path::from(Self::os_string_from_bytes(line)))
+            }))
         } else {
             Box::new(
                 self.paths
@@ -521,6 +525,17 @@ impl GroupConfig {
                     .map(move |p| base_dir.resolve(p)),
             )
         }
+    }
+
+    #[cfg(unix)]
+    fn os_string_from_bytes(bytes: Vec<u8>) -> std::ffi::OsString {
+        use std::os::unix::ffi::OsStringExt;
+        std::ffi::OsString::from_vec(bytes)
+    }
+
+    #[cfg(not(unix))]
+    fn os_string_from_bytes(bytes: Vec<u8>) -> std::ffi::OsString {
+        String::from_utf8_lossy(&bytes).into_owned().into()
     }
 
     /// Returns the absolute input paths in the canonical form used by the directory walk
